@@ -49,6 +49,8 @@ def generate(seed, tier):
         # free-text keys whose values contain the separator a naive concatenation of key values would use
         fields = [{"name": "k%d" % index, "type": "Text", "length": "1{sep}4", "width": 4} for index in range(key_count)]
         alphabet = ["a", "a, b", "b, a"]
+        if fmt == "delimited":
+            alphabet += ["a\rb", "a\nb"]  # keys that differ only in the kind of line break they contain
         if fmt == "fixed":
             alphabet.append(" a")  # differs from "a" as a key although both mean the same once blanks are dropped
     elif fmt == "delimited" and swarm.random() < 0.25:
